@@ -165,9 +165,6 @@ def sched_part(rep, info, systems, prop, tier=None, search_only=False, timeout=3
     if search_only:
         shutil.rmtree(out, ignore_errors=True)
         return found
-    _pending(rep, summ, "scheduler")
-    rep.cov["unmodelled_executions"] = rep.cov.get("unmodelled_executions", 0) + summ.get("unmodelled_executions", 0)
-    rep.cov["evaluations"] += summ.get("unmodelled_executions", 0)
     # replay on the Lean LTS
     t = time.time()
     with open(os.path.join(out, "ops.txt")) as fin, open(os.path.join(out, "model.txt"), "w") as fout:
@@ -232,29 +229,6 @@ def sched_part(rep, info, systems, prop, tier=None, search_only=False, timeout=3
     return found
 
 
-PENDING_ID = "PENDING-CONC-1"
-PENDING_WHAT = ("[dupchan-order] slice-of-channels Join given the SAME channel at several positions starts one forwarder per position: "
-                "every item of that channel is delivered exactly once and the output is closed once after all inputs are drained, but two of "
-                "its items can arrive in swapped order (per-input order clause); witness in .work/new-defects-conc.md; awaiting the decision "
-                "whether duplicated inputs are within C19 (fix) or a known finding")
-
-
-def _pending(rep, summ, where):
-    n = summ.get("pending_count", 0)
-    if not n:
-        return
-    rep.cov["pending_witness_classes"] = rep.cov.get("pending_witness_classes", {})
-    d = rep.cov["pending_witness_classes"].setdefault("dupchan-order", {"executions": 0, "witnesses": []})
-    d["executions"] += n
-    for w in (summ.get("pending") or [])[:2]:
-        d["witnesses"].append({"where": where, "config": (w.get("replay") or w).get("config"),
-                               "choices": (w.get("replay") or {}).get("choices"), "what": w["what"]})
-    if not any(k.startswith(PENDING_ID) for k in rep.known):
-        w = (summ.get("pending") or [{}])[0]
-        rep.known.append("%s %s (replayed on this run: %d executions, e.g. %s)" % (
-            PENDING_ID, PENDING_WHAT, n, "; ".join(w.get("what", []))[:200]))
-
-
 def race_part(rep, info, systems, prop, tier=None, timeout=1500, maxsec=0):
     """Real runtime: the unrewritten emitted code under the race detector, same scenarios, many
     repetitions with GOMAXPROCS varied; outcome checked against the same observable clauses."""
@@ -289,7 +263,6 @@ def race_part(rep, info, systems, prop, tier=None, timeout=1500, maxsec=0):
             found += 1
             rep.violation("real-runtime execution violating the property (%s): %s" % (v["config"]["sys"], "; ".join(v["what"])[:600]),
                           {"kind": "race", "replay": {"config": v["config"], "choices": []}, "violated": v["what"]}, True)
-        _pending(rep, summ, "real runtime")
         rep.cov["evaluations"] += summ["executions"]
         rep.cov["race_runs"] = {"executions": summ["executions"], "gomaxprocs": summ["gomaxprocs"],
                                 "per_system": summ["systems"], "wall_s": round(time.time() - t, 1),
